@@ -102,7 +102,11 @@ func genAllowCase(r *hlib.Rand, emit func(string, ...any)) int {
 func genRelayCase(r *hlib.Rand, emit func(string, ...any)) int {
 	g := &caseGen{r: r, emit: emit, interval: 100, retries: 5}
 	g.nodes = []nodeSpec{viaSpec(r, 1), {2, []int{9}}, viaSpec(r, 3)}
-	withC := r.Chance(1, 3)
+	if r.Chance(1, 8) {
+		// B's certificate also claims A's first address: refused in both roles, relayed or not
+		g.nodes[2] = nodeSpec{2, []int{3, g.nodes[0].addrs[0]}}
+	}
+	withC := r.Chance(1, 2)
 	if withC {
 		g.nodes = append(g.nodes, viaSpec(r, 5))
 	}
